@@ -21,6 +21,11 @@ CLAIMS = {
   'text': 'For every object type (u8..i64, pointer), six operand types and ALL operand/old values: set/read/load/store/xchg/cmpxchg/add_return/sub_return/add/sub/inc/dec/and/or of the real macro stack store and return the C expression wrapped to the width, with the sign of the object type, and leave the neighbouring bytes untouched - on the default x86 path (x86.h + generic.h with the 32 asm statements mechanically replaced by assumed instruction contracts) and on the CONFIG_RCU_USE_ATOMIC_BUILTINS path. Loop-free, full-domain symbolic inputs: complete. Static fact: every RMW asm is lock-prefixed or xchg with a memory clobber.',
   'note': 'Assumed: Intel instruction semantics of cmpxchg/xchg/xadd/and/or/add/inc/dec (verif/x86_insn.h), CBMC models of __atomic builtins. NOT decided: atomicity / lost-update freedom under concurrency and the full-fence effect of locked instructions (hardware).',
  },
+ 'C10': {
+  'category': 'proof',
+  'text': 'Sequential FIFO contracts of the real wfcqueue/wfqueue code on quiescent queues of unbounded symbolic length (pool layout + witness): enqueue appends, dequeue (all four variants) removes position 0 and never WOULDBLOCKs, first/next are the induction step of the for_each macros, splice = dest ++ src with the source left empty and reusable, empty() <=> n == 0; legacy cds_wfq incl. dummy recycling; event order of enqueue (SEQ_CST tail exchange before the release link store). Apart (bounded): dequeue/first/next with an enqueuer acting between any two of their shared accesses return the first element and lose, duplicate or reorder nothing.',
+  'note': 'Assumed: sequential meaning of the primitives, canonical pool layout. Bounded part: 1 concurrent enqueue (2 atomic steps) and busy-wait loops unwound 3x. Not decided: full linearizability over all schedules, termination of blocking waits.',
+ },
 }
 for i in range(1, 21):
     k = 'C%02d' % i
